@@ -323,6 +323,18 @@ def r_fill_writes(rep, prog):
             h, blocks, exits = loops[0]
             ok, why = exits_only_by_exhaustion(b, tm, h, blocks, exits)
             good = good and ok
+            # rows of [range.start, range.end): first row of start ..= row of (end - 1)
+            info = iter_loop_header(b, tm, h)
+            rr = [x for x in T.walk(info[0][2][0]) if x[0] == "call" and x[1] == "core::ops::range::RangeInclusive::new"] if info else []
+            rows_ok = False
+            if rr:
+                lo, hi = T.canon(rr[0][2][0]), T.canon(rr[0][2][1])
+                lo_ok = lo == ("f", ("call", "llfree::FrameId::as_row", (("f", ("p", "range"), "start"),)), 0)
+                hi_ok = (hi[0] == "f" and hi[1][0] == "call" and hi[1][1] == "llfree::FrameId::as_row" and hi[1][2][0][0] == "agg"
+                         and hi[1][2][0][2][0] == ("call", "usize::saturating_sub", (("f", ("f", ("p", "range"), "end"), 0), ("c", 1))))
+                rows_ok = lo_ok and hi_ok
+            good = good and rows_ok
+            detail += " rows start.as_row()..=(end-1).as_row()=%s" % rows_ok
     rep.check(good, rule, "Bitfield::set", "v: fetch_or(mask), !v: fetch_and(!mask) on every row of the range",
               "Bitfield::set does not apply mask / !mask as selected by v (%s)" % detail, b.span)
 
